@@ -467,6 +467,13 @@ func (bp *bprover) lowerBoundG(v ssa.Value, gc gctx, d int) (int64, bool) {
 			if e == ssa.Value(x) {
 				continue
 			}
+			// induction: an edge that carries the phi itself plus a non-negative constant cannot lower the bound the
+			// other edges establish
+			if b2, isB := e.(*ssa.BinOp); isB && b2.X == ssa.Value(x) {
+				if cst, isC := constInt(b2.Y); isC && ((b2.Op == token.ADD && cst >= 0) || (b2.Op == token.SUB && cst <= 0)) {
+					continue
+				}
+			}
 			lb, ok := bp.lowerBoundG(e, gctx{at: x.Block().Preds[i], edgeTo: x.Block()}, d+1)
 			if !ok {
 				all = false
@@ -1054,7 +1061,49 @@ func sizeFromLen(v ssa.Value, d int) bool {
 
 // boundedLoop: the loop headed by h terminates by construction.
 func boundedLoop(h *ssa.BasicBlock, lh map[*ssa.BasicBlock]map[*ssa.BasicBlock]bool) (bool, string) {
-	ifi, ok := h.Instrs[len(h.Instrs)-1].(*ssa.If)
+	ok, why := boundedLoopAt(h, h, lh)
+	if ok {
+		return true, why
+	}
+	// the counted exit test may be a later conjunct of the loop condition (for i := 0; flag && i < n; i++): any test
+	// inside the loop that every round passes (it dominates every source of a back edge) and that leaves the loop on
+	// one side bounds it
+	for _, e := range h.Parent().Blocks {
+		if e == h || !lh[e][h] {
+			continue
+		}
+		ifi, isIf := e.Instrs[len(e.Instrs)-1].(*ssa.If)
+		if !isIf {
+			continue
+		}
+		leaves := false
+		for _, sc := range ifi.Block().Succs {
+			if !lh[sc][h] {
+				leaves = true
+			}
+		}
+		if !leaves {
+			continue
+		}
+		everyRound := true
+		for _, p := range h.Preds {
+			if lh[p][h] && p != e && !e.Dominates(p) {
+				everyRound = false
+			}
+		}
+		if !everyRound {
+			continue
+		}
+		if ok2, why2 := boundedLoopAt(h, e, lh); ok2 {
+			return true, why2 + " (tested in a later conjunct of the loop condition)"
+		}
+	}
+	return false, why
+}
+
+// boundedLoopAt judges the exit test at the end of block e for the loop with header h.
+func boundedLoopAt(h, e *ssa.BasicBlock, lh map[*ssa.BasicBlock]map[*ssa.BasicBlock]bool) (bool, string) {
+	ifi, ok := e.Instrs[len(e.Instrs)-1].(*ssa.If)
 	if !ok {
 		// the exit test may sit in a later block of the loop (for { … if c { break } }): look for a range-style header
 		return false, "the loop header does not end in an exit test"
@@ -1136,6 +1185,18 @@ func boundedLoop(h *ssa.BasicBlock, lh map[*ssa.BasicBlock]map[*ssa.BasicBlock]b
 				}
 			}
 		case *ssa.UnOp:
+			// a load of a captured variable that this function does not assign inside the loop
+			if fv, ok := x.X.(*ssa.FreeVar); ok && x.Op == token.MUL {
+				stored := false
+				for _, r := range *fv.Referrers() {
+					if st, isSt := r.(*ssa.Store); isSt && st.Addr == ssa.Value(fv) && inLoop(st.Block()) {
+						stored = true
+					}
+				}
+				if !stored {
+					return true
+				}
+			}
 			// a load of a local variable that is not assigned inside the loop
 			if x.Op == token.MUL && inLoop(x.Block()) {
 				if al, ok := x.X.(*ssa.Alloc); ok && !inLoop(al.Block()) {
